@@ -85,6 +85,13 @@ func checks(def int) int {
 
 func checkC01(t *testing.T, sc *Scenario, rec *Recorder) []Diff {
 	ds, f := runAndCompare(t, sc, rec)
+	if f.O != nil && f.O.Wire != nil {
+		// replies to another run's probes are kept out by the source port alone for UDP (every run uses the same IP
+		// IDs): a port another socket can be given while this run is live lets them in
+		for _, pp := range f.O.Wire.PortProblems {
+			ds = append(ds, Diff{"C01", "another-runs-replies-admitted", "nothing keeps another run from being handed this run's source port, whose replies would then create hops here: " + pp})
+		}
+	}
 	if f.Failed {
 		rec.Case(scenarioKey(sc), false, nil, "variant:"+sc.Variant)
 		return ds
